@@ -976,12 +976,69 @@ func ModelInput(res *Result) string {
 		mode += "m"
 	}
 	mode += "/" + c.cbBits()
-	pre := ""
+	pre := linksField(g)
 	if c.PreTag >= 0 && (c.Mode == "t" || c.Mode == "r") {
-		pre = fmt.Sprintf("pt=%d ", c.PreTag)
+		pre += fmt.Sprintf("pt=%d ", c.PreTag)
 	}
 	return fmt.Sprintf("%d %d %s %s %s %s %s %s %s%srp=%s:%d:%d:%d", len(g.Nodes), c.K, mode, rootField, ints(cached0),
 		strings.Join(nodes, ";"), ints(d0), tr, platformField(c, g), pre, c.Stream, c.GenSeed, b2i(c.Thorough), c.Seed)
+}
+
+// mtConst names a media type by the Go constant the code switches on ("-" = any other media type).
+var mtConst = map[string]string{
+	dag.MTDockerManifest:                            "docker.MediaTypeManifest",
+	dag.MTDockerManifestList:                        "docker.MediaTypeManifestList",
+	ocispec.MediaTypeImageManifest:                  "ocispec.MediaTypeImageManifest",
+	ocispec.MediaTypeImageIndex:                     "ocispec.MediaTypeImageIndex",
+	dag.MTArtifactManifest:                          "spec.MediaTypeArtifactManifest",
+	ocispec.MediaTypeImageLayerNonDistributable:     "ocispec.MediaTypeImageLayerNonDistributable",
+	ocispec.MediaTypeImageLayerNonDistributableGzip: "ocispec.MediaTypeImageLayerNonDistributableGzip",
+	ocispec.MediaTypeImageLayerNonDistributableZstd: "ocispec.MediaTypeImageLayerNonDistributableZstd",
+	dag.MTDockerForeignLayer:                        "docker.MediaTypeForeignLayer",
+}
+
+// linksField renders every node's media type and decoded link fields (generator's ground truth:
+// subject, config, layers, manifests, blobs) for the in-Coq check that the link schema regenerated
+// from content.Successors, applied to these fields, yields exactly the generator's successor list,
+// and that IsManifest / IsForeignLayer's tables give the node flags:  lk=<mt>|S<n>|C<n>|L<a+b>|M<..>|B<..>;...
+func linksField(g *dag.Graph) string {
+	var out []string
+	for _, n := range g.Nodes {
+		mt := mtConst[n.Desc.MediaType]
+		if mt == "" {
+			mt = "-"
+		}
+		rest := n.Succ
+		subj, cfg := "-", "-"
+		if n.Subject >= 0 && len(rest) > 0 {
+			subj = fmt.Sprint(rest[0])
+			rest = rest[1:]
+		}
+		var ls, ms, bs []int
+		switch n.Kind {
+		case dag.KImage, dag.KDocker:
+			if len(rest) > 0 {
+				cfg = fmt.Sprint(rest[0])
+				ls = rest[1:]
+			}
+		case dag.KIndex, dag.KDockerL:
+			ms = rest
+		case dag.KArtifact:
+			bs = rest
+		}
+		plus := func(xs []int) string {
+			if len(xs) == 0 {
+				return "-"
+			}
+			p := make([]string, len(xs))
+			for i, x := range xs {
+				p[i] = fmt.Sprint(x)
+			}
+			return strings.Join(p, "+")
+		}
+		out = append(out, fmt.Sprintf("%s|S%s|C%s|L%s|M%s|B%s", mt, subj, cfg, plus(ls), plus(ms), plus(bs)))
+	}
+	return "lk=" + strings.Join(out, ";") + " "
 }
 
 var archID = map[string]int{"": 0, "amd64": 1, "arm64": 2}
